@@ -152,6 +152,8 @@ def handleForm (cmd : String) (variant : List String) (secs : List (List String)
       match elaborate an lines with
       | .error msg => s!"error {msg}"
       | .ok e =>
+        -- `CircuitGraph.from_circuit`: 'Cannot create CircuitGraph with twoport components'
+        if e.raw.any (fun c => ["TF", "GY", "TP", "TL"].contains c.ty) then "error twoport" else
         let cs := e.cpts.map (·.2)
         -- one switch is left: e1 / "patched" = components identified by graph edge (proposed patch for
         -- the open finding C15-c), e0 / "asis" = by node names (code as it is)
